@@ -320,6 +320,13 @@ class SpatialTransform(DeviceProperty, Module, metaclass=ABCMeta):
         # - (N, D, D + 1): Affine transformation, including translation.
         if data.ndim == 3:
             assert self.linear
+            # Transformation with domain different from output domain
+            # - Express matrix with respect to the normalized coordinates of the output grid.
+            if grid != self.grid() or grid.align_corners() != self.align_corners():
+                axes = Axes.from_grid(grid)
+                pre = grid.transform(axes, self.axes(), to_grid=self.grid()).to(data)
+                post = self.grid().transform(self.axes(), axes, to_grid=grid).to(data)
+                data = U.homogeneous_matmul(post, data, pre)
             data = U.affine_flow(data, grid)
         # Non-rigid deformation tensor as displacement field with shape (N, D, ..., X)
         else:
